@@ -288,6 +288,7 @@ def run(args):
     harness = []
     try:
         cases = [(args.seed, i, 40, tmpdir) for i in range(nfiles)] + [(args.seed, 100000 + i, 3, tmpdir) for i in range(max(4, nfiles // 3))]
+        cases = core.replay_cases(args, cases, lambda sd, i, k: (sd, i, k, tmpdir))
         for _, c, r in core.forkmap(run_case, cases, isolated=False):
             if '_exception' in r:
                 harness.append(str(r)[:500])
